@@ -253,8 +253,14 @@ let do_tb toks now il =
         if !dead then "INADMISSIBLE" else
         (* where the harness's gate was entered (with sidMu held or not) depends on the code layout, not on the
            property: it is recorded in the implementation's token for the evidence and echoed here *)
-        let gate = match String.index_opt itk '/' with Some i -> String.sub itk i (String.length itk - i) | None -> "" in
-        "ovl:" ^ String.concat "+" (List.map string_of_int (List.sort compare !sids)) ^ gate
+        (* /g<held>.<entries>: evidence only, echoed.  /p<state>: the reservation probe — while one handler waits to
+           index, no other handler may be inside the allocator and sidMu must be held: REQUIRED to be "held" whenever
+           some handler got an id (it then reaches the indexing step), "none" otherwise; anything else (free, timeout)
+           is a mismatch *)
+        let gate = match String.split_on_char '/' itk with
+          | _ :: g :: _ when String.length g > 0 && g.[0] = 'g' -> "/" ^ g | _ -> "" in
+        let probe = if List.length !uids >= 1 then "/pheld" else "/pnone" in
+        "ovl:" ^ String.concat "+" (List.map string_of_int (List.sort compare !sids)) ^ gate ^ probe
       | ["C"; n; sv] ->
         let n = int_of_string n in
         let cids = ids_of itk "conc:" in
